@@ -36,7 +36,7 @@ type c11AttrSet struct {
 }
 
 type c11Change struct {
-	Fam      int  `json:"fam"` // 0 v4 (v4 nh) 1 v4 with v6 nh 2 v6 3 vpnv4
+	Fam      int  `json:"fam"` // 0 v4 (v4 nh) 1 v4 with v6 nh 2 v6 3 vpnv4 4 v4 whose v4 next hop is carried in MP_REACH_NLRI (no NEXT_HOP attribute)
 	Prefix   int  `json:"prefix"`
 	ID       int  `json:"id"`
 	Withdraw bool `json:"withdraw"`
@@ -115,7 +115,7 @@ func drawC11(t *rapid.T) c11Case {
 	for i := 0; i < nc; i++ {
 		l := fmt.Sprintf("c%d", i)
 		ch := c11Change{
-			Fam:      rapid.SampledFrom([]int{0, 0, 0, 1, 2, 2, 3}).Draw(t, l+"fam"),
+			Fam:      rapid.SampledFrom([]int{0, 0, 0, 1, 2, 2, 3, 4, 4}).Draw(t, l+"fam"),
 			Prefix:   rapid.IntRange(0, 7).Draw(t, l+"p"),
 			ID:       rapid.IntRange(1, 3).Draw(t, l+"id"),
 			Withdraw: rapid.IntRange(0, 3).Draw(t, l+"w") == 0,
@@ -144,11 +144,11 @@ func drawC11(t *rapid.T) c11Case {
 	return c
 }
 
-var c11Families = []bgp.Family{bgp.RF_IPv4_UC, bgp.RF_IPv4_UC, bgp.RF_IPv6_UC, bgp.RF_IPv4_VPN}
+var c11Families = []bgp.Family{bgp.RF_IPv4_UC, bgp.RF_IPv4_UC, bgp.RF_IPv6_UC, bgp.RF_IPv4_VPN, bgp.RF_IPv4_UC}
 
 func c11NLRI(fam, prefix int) bgp.NLRI {
 	switch fam {
-	case 0, 1:
+	case 0, 1, 4:
 		n, _ := bgp.NewIPAddrPrefix(netip.PrefixFrom(netip.AddrFrom4([4]byte{10, byte(fam), byte(prefix), 0}), 24))
 		return n
 	case 2:
@@ -188,7 +188,7 @@ func c11BulkNLRI(fam, i, mixed int) bgp.NLRI {
 
 func c11NextHops(fam int, s c11AttrSet) []netip.Addr {
 	switch fam {
-	case 0, 3:
+	case 0, 3, 4:
 		return []netip.Addr{netip.AddrFrom4([4]byte{192, 0, 2, byte(1 + s.NH)})}
 	default:
 		nh := []netip.Addr{netip.AddrFrom16([16]byte{0x20, 0x01, 0x0d, 0xb8, 0xff, 15: byte(1 + s.NH)})}
@@ -268,6 +268,9 @@ func c11SingleSize(fam int, nlri bgp.NLRI, attrs []bgp.PathAttributeInterface, n
 	}
 	if fam == 0 {
 		return size + n
+	}
+	if fam == 4 {
+		return size + 7 + n // sent as a classic IPv4 UPDATE: NEXT_HOP attribute (7 octets) + NLRI
 	}
 	// MP_REACH: flags,type,len(1 or 2) + afi(2) safi(1) nhlen(1) nh + reserved(1) + nlri
 	nhl := 0
